@@ -300,6 +300,94 @@ pub fn run(ctx: &mut Ctx, replay: Option<&str>) {
             ctx.count("stream.deep_chain_in_memory");
         }
     }
+    // sizes beyond what the model answers in time: objects of 64 to 300 members, arrays of 24 to 300 elements (scalars first,
+    // containers further back; arrays of arrays). AllLevels: one disclosure per member and element at every depth, nothing but
+    // iss / iat / exp in clear; TopLevel: one disclosure per top-level member, its value exactly the member's value
+    if replay.is_none() {
+        let now = crate::imp::now();
+        let big = |n: usize, tag: &str| Value::Object((0..n).map(|i| (format!("{}{:03}", tag, i), match i % 50 { 7 => json!({"in": i, "list": [i, {"x": i}]}), 13 => json!([i, [i]]), _ => json!(i) })).collect());
+        let mixed = |n: usize| Value::Array((0..n).map(|i| match i { 0 => json!("first is a scalar"), _ if i % 9 == 2 => json!({"sensor": i, "cal": {"k": [i]}}), _ if i % 13 == 5 => json!([i, {"deep": i}]), _ => json!(i) }).collect());
+        let sets: Vec<(&str, Value)> = vec![
+            ("object-64", json!({"iss": "https://issuer.example", "exp": now + 100000, "o": big(64, "a")})),
+            ("object-130-top-level", { let mut m = big(130, "t").as_object().cloned().unwrap(); m.insert("iss".into(), json!("https://issuer.example")); m.insert("exp".into(), json!(now + 100000)); Value::Object(m) }),
+            ("array-24", json!({"iss": "https://issuer.example", "exp": now + 100000, "readings": mixed(24)})),
+            ("array-40-in-object-in-array", json!({"iss": "https://issuer.example", "exp": now + 100000, "l": [{"readings": mixed(40)}, mixed(30)]})),
+            ("array-300-object-300", json!({"iss": "https://issuer.example", "exp": now + 100000, "iat": now, "readings": mixed(300), "o": {"p": big(300, "b")}})),
+        ];
+        for (k, (label, claims)) in sets.iter().enumerate() {
+            for (si, st) in [Strategy::All, Strategy::Top].into_iter().enumerate() {
+                if ctx.tier == Tier::Quick && *label == "array-300-object-300" && si == 1 {
+                    continue;
+                }
+                let a = IssueArgs { claims: claims.clone(), strategy: st.clone(), holder: None, decoy: (k + si) % 2 == 0, fmt: if k % 2 == 0 { Fmt::Compact } else { Fmt::Json }, key: KeyId::Hmac1, alg: Some("HS256".into()), queue: None };
+                let res = issue(&a);
+                ctx.impl_calls += 1;
+                ctx.evaluations += 1;
+                ctx.oracle_checks += 1;
+                ctx.count("stream.sizes_direct");
+                let case = json!({"sized_claim_set": label, "strategy": if si == 0 { "all" } else { "top" }, "decoy": a.decoy, "fmt": a.fmt.name()});
+                let parts = match res.out.ok().and_then(|s| split(a.fmt, s)) {
+                    Some(p) => p,
+                    None => {
+                        ctx.violation("oracle", "issue", "a claim set with large objects / long arrays was not issued", case, res.out.describe(), json!("Ok"));
+                        continue;
+                    }
+                };
+                let payload = parts.payload().unwrap_or(Value::Null);
+                let top: Vec<(&String, &Value)> = claims.as_object().map(|m| m.iter().filter(|(k, _)| !["iss", "iat", "exp"].contains(&k.as_str())).collect()).unwrap_or_default();
+                let clear: Vec<&String> = payload.as_object().map(|m| m.keys().filter(|k| !["_sd", "_sd_alg", "iss", "iat", "exp"].contains(&k.as_str())).collect()).unwrap_or_default();
+                let decoded: Vec<Value> = parts.disclosures.iter().filter_map(|d| decode_disclosure(d)).collect();
+                let mut problems: Vec<String> = vec![];
+                if !clear.is_empty() {
+                    problems.push(format!("{} top-level claims stay in clear", clear.len()));
+                }
+                if si == 0 {
+                    let mut ps = vec![];
+                    all_positions(claims, &vec![], &mut ps);
+                    let expected = ps.iter().filter(|p| !matches!(p.first(), Some(Step::Key(k)) if p.len() == 1 && ["iss", "iat", "exp"].contains(&k.as_str()))).count();
+                    if parts.disclosures.len() != expected {
+                        problems.push(format!("AllLevels: {} disclosures for {} members and elements", parts.disclosures.len(), expected));
+                    }
+                    // no disclosed value may still carry a scalar member / element of the claims in clear below it: every container
+                    // inside a disclosed value consists of _sd lists and placeholders only
+                    fn bare(v: &Value) -> bool {
+                        match v {
+                            Value::Object(m) => m.iter().all(|(k, x)| k == "_sd" && x.is_array()),
+                            Value::Array(a) => a.iter().all(|x| x.as_object().map_or(false, |o| o.len() == 1 && o.contains_key("..."))),
+                            _ => true,
+                        }
+                    }
+                    let leaky = decoded.iter().filter(|d| !d.as_array().and_then(|x| x.last()).map_or(true, bare)).count();
+                    if leaky > 0 {
+                        problems.push(format!("AllLevels: {} disclosed values still carry members or elements in clear", leaky));
+                    }
+                } else {
+                    if parts.disclosures.len() != top.len() {
+                        problems.push(format!("TopLevel: {} disclosures for {} top-level members", parts.disclosures.len(), top.len()));
+                    }
+                    // (with decoys on, objects inside a disclosed value carry an _sd list of decoys: dropped before comparing)
+                    fn strip(v: &Value) -> Value {
+                        match v {
+                            Value::Object(m) => Value::Object(m.iter().filter(|(k, _)| k.as_str() != "_sd").map(|(k, x)| (k.clone(), strip(x))).collect()),
+                            Value::Array(a) => Value::Array(a.iter().map(strip).collect()),
+                            _ => v.clone(),
+                        }
+                    }
+                    for (k, v) in &top {
+                        if !decoded.iter().any(|d| d.as_array().map_or(false, |x| x.len() == 3 && x[1] == json!(k) && (if a.decoy { strip(&x[2]) } else { x[2].clone() }) == **v)) {
+                            problems.push(format!("TopLevel: no disclosure carries member {:?} with exactly its value", k));
+                            break;
+                        }
+                    }
+                }
+                if problems.is_empty() {
+                    ctx.nontrivial(&case);
+                } else {
+                    ctx.violation("oracle", "issue", &format!("issued payload does not hide exactly the designated claims ({}): {}", label, problems[0]), case, json!({"problems": problems}), json!("one disclosure per designated claim, nothing else hidden, nothing designated in clear"));
+                }
+            }
+        }
+    }
     let mut reqs = vec![];
     let mut results = vec![];
     for a in &cases {
